@@ -124,6 +124,16 @@ def scenarios(chk):
             out.append(scn('leakapp', b, d, loop=0, stagger=rng.randint(0, 1)))
             out.append(scn('leakapp', b, d, loop=1, cfg=rng.randint(0, 1)))
             out.append(scn('scoped', b, d, loop=rng.randint(0, 1), stagger=rng.randint(0, 1)))
+    # a sink that itself logs through the installed logger (from the worker thread) while a backlog is drained
+    for p, kw in (('quit', {}), ('reset', {'loop': 1}), ('reset', {'loop': 0}), ('cycles', {'cycles': 2}), ('scoped', {'loop': 0})):
+        out.append(scn(p, rng.choice([1, 3, 6]), rng.choice([0, 1, 5]), relog=1, stagger=rng.randint(0, 1), **kw))
+    # asynchronous mode switched on from a short-lived non-main thread, then an ordinary exec()+quit / reset
+    for b in ([1, 5, 100] if not thorough else backlogs[1:]):
+        out.append(scn('quit', b, rng.choice([0, 1]), movethread=1, stagger=rng.randint(0, 1)))
+    out.append(scn('cycles', 3, 1, movethread=1, cycles=3))
+    out.append(scn('reset', 5, 1, movethread=1, relog=1, loop=1))
+    # two stops at the same time (outside the model: only the direct oracles apply)
+    out.append(scn('reset', 5, 5, loop=0, concurrent=1))
     # stops when no thread exists: a second reset in a row, and a logger that never went asynchronous
     for b in (0, 3):
         out.append(scn('cycles', b, 1, cycles=2, double=1, loop=rng.randint(0, 1)))
@@ -143,6 +153,8 @@ def scenarios(chk):
         out.append(scn('cycles', 1, 3200, cycles=2, loop=0))
     if thorough:
         out += widened_scenarios(rng)
+    # an own Logger deleted inside the running event loop, then quit: run under the sanitizers
+    out.append(scn('scoped', 3, 1, loop=1, _san=1))
     for i, s in enumerate(out):
         s['_n'] = i
     return out
@@ -173,7 +185,8 @@ def run_child(exe, s, want_stacks=False, env=None):
         p.kill()
         out, err = p.communicate()
     return {'lines': out.decode('utf-8', 'replace').splitlines(), 'rc': p.returncode, 'hung': hung,
-            'wall': round(time.time() - t0, 2), 'stacks': stacks, 'stderr': err.decode('utf-8', 'replace')[-600:]}
+            'wall': round(time.time() - t0, 2), 'stacks': stacks, 'stderr': err.decode('utf-8', 'replace')[-600:],
+            'stderr_head': err.decode('utf-8', 'replace')[:1800]}
 
 
 # --------------------------------------------------------------------------------- direct oracles
@@ -281,7 +294,8 @@ def analyze(s, r):
         problems.append(('hang', 'no exit within %.1f s; %d accepted, %d delivered; last lines %s' % (
             bound_of(s), len(posted), len(delivered), lines[-4:])))
     elif r['rc'] != 0:
-        problems.append(('crash', 'child exit status %s; stderr %r' % (r['rc'], r['stderr'][-200:])))
+        head = [l for l in r.get('stderr_head', '').splitlines() if 'ERROR: AddressSanitizer' in l or 'runtime error' in l or l.lstrip().startswith('#0 ')]
+        problems.append(('crash', 'child exit status %s; stderr %r' % (r['rc'], ' | '.join(head[:3])[:400] if head else r['stderr'][-200:])))
     elif not exited:
         problems.append(('crash', 'child ended without reaching the end of static destruction'))
     else:
@@ -310,8 +324,16 @@ def parse_model(line):
 
 
 def kind_for(s, kind, r=None):
-    if s['path'] in F5_PATHS and kind in ('hang', 'lost'):
+    after_main = r is not None and 'MAIN_RETURN' in r['lines']
+    if s['path'] in F5_PATHS and int(s.get('async', 1)) and kind in ('hang', 'lost', 'crash') and after_main:
+        # F5: nothing stopped the worker before the process left main on an exit path without an event
+        # loop; what follows (hang in the destructor's stop, undelivered backlog, the still running worker
+        # crashing inside static destruction) is one and the same finding
         return 'exit_without_event_loop'
+    if s.get('concurrent') and kind in ('crash', 'hang'):
+        return 'concurrent_stops_crash'
+    if s['path'] == 'scoped' and s.get('_san') and kind == 'crash' and r is not None and 'heap-use-after-free' in r.get('stderr_head', ''):
+        return 'dangling_about_to_quit_lambda'
     if s['path'] == 'leakapp' and kind == 'crash' and r is not None and 'MAIN_RETURN' in r['lines']:
         # the singleton drains its backlog from a static destructor while the other exit handlers run
         return 'crash_during_exit_drain'
@@ -342,6 +364,13 @@ def replay_obj(s, r, problems, mv, kind):
     if s['path'] in F5_PATHS or s['path'] == 'leakapp':
         o['exit_path'] = s['path']
     o['cfg'] = int(s.get('cfg', 0))
+    o['crashed'] = (not r['hung']) and r['rc'] != 0
+    o['after_main_return'] = 'MAIN_RETURN' in r['lines']
+    o['concurrent'] = bool(s.get('concurrent'))
+    o['loop'] = s.get('loop')
+    o['sanitizer'] = bool(s.get('_san'))
+    if s.get('_san') and r['rc'] != 0:
+        o['asan_head'] = r.get('stderr_head', '').splitlines()[:14]
     return o
 
 
@@ -359,7 +388,7 @@ def run():
                    'extraction ExtrOcamlBasic only, no Extract Constant; ocaml/drv_shutdown.ml',
                    'harness/h_shutdown.cpp, the QTLOGGER_VERIF_POINT hooks (order of write(2) calls = order of events), gdb for stacks',
                    'modelled not verified: QThread, Qt posted events (FIFO; discarded in secondary threads once QCoreApplication::instance() is null), QMutex, QAtomicInt']
-    chk.assumptions = ['one stop at a time (concurrent resetOwnThread calls from two threads are outside the model and the scenarios)',
+    chk.assumptions = ['one stop at a time in the model (concurrent resetOwnThread calls from two threads are exercised by one scenario with the direct oracles only)',
                        'moveToOwnThread is not called concurrently with logging calls in the recordings (the harness holds the logger lock around it)',
                        'real time is outside the model: "bounded time" is checked on the implementation only, as exit within %.0f s + 1.5 x expected drain time' % BOUND_S,
                        'Qt emits aboutToQuit when exec() returns after quit() (Qt behaviour, not modelled)']
@@ -371,7 +400,7 @@ def run():
     thorough = chk.tier == 'thorough'
     scs = scenarios(chk)
     san = None
-    if thorough:
+    if any(x.get('_san') for x in scs):
         try:
             san = vlib.build_harness('shutdown', 'san')
         except Exception as e:  # noqa
@@ -391,7 +420,9 @@ def run():
             stack_budget[key] -= 1
         return run_child(exe, s, want_stacks=want, env=env)
 
-    if san:
+    if san is None:
+        scs = [x for x in scs if not x.get('_san')]
+    if san and thorough:
         extra = []
         for s in scs:
             if s['path'] in ('race', 'cycles') and s['delay'] <= 5 and s['backlog'] <= 30:
@@ -440,6 +471,8 @@ def run():
     n_oracle = evaluate(pairs)
 
     def disagreement(s, r):
+        if s.get('concurrent'):
+            return None          # two simultaneous stops are outside the model
         mv = r['model']
         if not mv.get('ok'):
             k = mv.get('rejected_at')
@@ -533,8 +566,12 @@ def replay(path):
         print(json.dumps(rp, indent=1)); return 0
     vlib.gen_src(['shutdown'])
     model = vlib.build_model('shutdown'); impl = vlib.build_harness('shutdown')
+    env = None
+    if rp.get('sanitizer'):
+        impl = vlib.build_harness('shutdown', 'san'); sc = dict(sc, _san=1)
+        env = dict(os.environ, ASAN_OPTIONS='detect_leaks=0:abort_on_error=0', UBSAN_OPTIONS='print_stacktrace=1')
     print('command        ', impl, ' '.join(argv_of(sc)))
-    r = run_child(impl, sc, want_stacks=True)
+    r = run_child(impl, sc, want_stacks=True, env=env)
     probs, toks, facts = analyze(sc, r)
     print('implementation  hung=%s exit=%s wall=%.1fs accepted=%d delivered=%d' % (r['hung'], r['rc'], r['wall'], facts['posted'], facts['delivered']))
     cl = collapse(r['lines'])
@@ -543,6 +580,8 @@ def replay(path):
     if len(cl) > 80:
         print('    ... (%d lines)' % len(r['lines']))
     print('direct oracles ', probs or 'all satisfied')
+    if r['rc'] not in (0, None):
+        print('stderr         ', r.get('stderr_head', '')[:1500])
     _, mo, _ = vlib.run_lines(model, [model_line(sc, toks)])
     print('model acceptor ', mo[0] if mo else None)
     if r['stacks']:
